@@ -37,6 +37,10 @@ ALL = D(roles=D(
     callee=D(features=D(call_canceling=True, progressive_call_results=True, call_timeout=True,
                         caller_identification=True, progressive_call_invocations=True)),
     caller=D(features=D(call_canceling=True, progressive_call_invocations=True))))
+PPT = D(roles=D(
+    subscriber=D(), publisher=D(features=D(payload_passthru_mode=True)),
+    callee=D(features=D(call_canceling=True, payload_passthru_mode=True)),
+    caller=D(features=D(payload_passthru_mode=True))))
 PLAIN = D(roles=D(subscriber=D(), publisher=D(), callee=D(features=D(call_canceling=True)), caller=D()))
 
 
@@ -133,6 +137,16 @@ CORPUS = {
         call(2, 1, "p.q"),
         msg(1, "yield", ref={"kind": "inv", "sess": 1, "pick": -1}, opts=D(progress=True), args=L(S("late")), kwargs=D()),
         msg(1, "yield", ref={"kind": "inv", "sess": 1, "pick": -1}, args=L(S("later")), kwargs=D(), final=True)]),
+    # 7102319  passthru result to a caller without the feature
+    ("C02", "ppt-yield-caller-lacks-feature"): dict(realms=[{}], ops=OBS + [
+        join(1, hello=PPT, authid="callee"), join(2, authid="caller"),
+        msg(1, "reg", req=1, uri="p.q"), call(2, 1, "p.q"),
+        msg(1, "yield", ref={"kind": "inv", "sess": 1, "pick": -1}, opts=D(ppt_scheme=S("x_a"), ppt_serializer=S("json")), args=L(S("r")), kwargs=D(), final=True),
+        call(2, 2, "p.q")]),
+    ("C02", "ppt-yield-callee-lacks-feature"): dict(realms=[{}], ops=OBS + [
+        join(1, authid="callee"), join(2, hello=PPT, authid="caller"),
+        msg(1, "reg", req=1, uri="p.q"), call(2, 1, "p.q"),
+        msg(1, "yield", ref={"kind": "inv", "sess": 1, "pick": -1}, opts=D(ppt_scheme=S("x_a")), args=L(S("r")), kwargs=D(), final=True)]),
     # 352205b  timeout overflow
     ("C13", "huge-timeout"): dict(realms=[{}], ops=OBS + [
         join(1, hello=PLAIN, authid="callee"), join(2, authid="caller"),
